@@ -281,6 +281,13 @@ class Checker:
             ok = False
             for r in rets:
                 for sub in ast.walk(il_g.expand(r.value) if r.value is not None else r):
+                    # a row block named at module level (`_ROWS = slice(0, 3)`) is that slice
+                    if isinstance(sub, ast.Subscript) and src(sub.value) == 'self.data' and isinstance(sub.slice, ast.Name):
+                        nm_ = sub.slice.id
+                        for top_ in fi.module.tree.body:
+                            if isinstance(top_, ast.Assign) and len(top_.targets) == 1 and isinstance(top_.targets[0], ast.Name) and top_.targets[0].id == nm_ \
+                                    and isinstance(top_.value, ast.Call) and src(top_.value.func) == 'slice' and len(top_.value.args) == 2:
+                                sub = ast.Subscript(value=sub.value, slice=ast.Slice(lower=top_.value.args[0], upper=top_.value.args[1], step=None), ctx=ast.Load())
                     if isinstance(sub, ast.Subscript) and src(sub.value) == 'self.data' and isinstance(sub.slice, ast.Slice):
                         try:
                             ok = (const_value(sub.slice.lower) if sub.slice.lower is not None else 0, const_value(sub.slice.upper)) == (lo, hi)
@@ -291,6 +298,18 @@ class Checker:
         rets = sorted((n for n in walk_own(mk.node) if isinstance(n, ast.Return)), key=lambda n: n.lineno)
         first = rets[0] if rets else None     # statements after the first top-level return are dead code
         ok, msg = False, 'makeWrench does not return Wrench(force_vector, position, frame)'
+        wargs = None
+        if first is not None and isinstance(first.value, ast.Call) and src(first.value.func) == 'Wrench':
+            # positional or keyword arguments, by the constructor's parameter order
+            wp = self.wrench.methods['__init__'].params[1:4]
+            wargs = list(first.value.args[:3]) + [None] * (3 - len(first.value.args[:3]))
+            for k_ in first.value.keywords:
+                if k_.arg in wp:
+                    wargs[wp.index(k_.arg)] = k_.value
+            if any(a_ is None for a_ in wargs):
+                wargs = None
+        if wargs is not None:
+            first = ast.copy_location(ast.Return(value=ast.Call(func=first.value.func, args=wargs, keywords=[])), first)
         if first is not None and isinstance(first.value, ast.Call) and src(first.value.func) == 'Wrench' and len(first.value.args) == 3:
             assigns = single_assignments(mk.node)
             a0 = Inliner(mk).expand(first.value.args[0])           # every temporary resolved
